@@ -95,3 +95,39 @@ package cluster
 //@   requires f != nil
 //@   before memberlist.Create assert [C19.wire] typeIs(conf.Delegate, *cluster.delegate) && asType(conf.Delegate, *cluster.delegate) != nil && asType(conf.Delegate, *cluster.delegate).shardView == cluster.shardView && cluster.shardView != nil && asType(conf.Delegate, *cluster.delegate).msgs == cluster.msgs && typeIs(conf.Events, *cluster.Cluster) && asType(conf.Events, *cluster.Cluster) == cluster
 //@   modifies nothing
+
+// ---------------------------------------------------------------- what is gossiped (C19)
+
+// The state a node hands to memberlist for the push/pull exchange is its MERGED view (after folding in
+// its own raft list) - not just what its local replicas report - and the state received from a peer
+// is merged into that same view: otherwise knowledge does not travel further than one hop.
+//@ import json "encoding/json"
+// copy returns the entries of the view (ASSUMED: map iteration + shuffle are not modelled)
+//@ uninterp func isCopyOf(s Slice, v Ref) bool
+//@ func (*shardView).copy
+//@   assumed
+//@   ensures isCopyOf(result, v)
+//@   modifies nothing
+//@ func toShardViewList
+//@   assumed
+//@   modifies nothing
+//@ func json.Marshal<*cluster.clusterState>
+//@   assumed
+//@   params v
+//@   modifies nothing
+//@ func json.Unmarshal<*cluster.clusterState>
+//@   assumed
+//@   params data, v
+//@   modifies fields(asType(v, *cluster.clusterState))
+//@ func (*delegate).LocalState
+//@   functype delegate.infoF infoContract
+//@   requires c != nil && c.shardView != nil && c.shardView.shards != nil && c.infoF != nil
+//@   requires [ok] forall id uint64 :: entryOK(entryOf(c.shardView, id)) && entryOf(c.shardView, id).ShardID == id
+//@   before (*shardView).update assert [C19.gossip.fold] v == c.shardView
+//@   before json.Marshal<*cluster.clusterState> assert [C19.gossip.view] asType(v, *cluster.clusterState) != nil && isCopyOf(asType(v, *cluster.clusterState).ShardView, c.shardView)
+//@   modifies elems(c.shardView.shards)
+//@ func (*delegate).MergeRemoteState
+//@   requires c != nil && c.shardView != nil && c.shardView.shards != nil
+//@   requires [ok] forall id uint64 :: entryOK(entryOf(c.shardView, id)) && entryOf(c.shardView, id).ShardID == id
+//@   before (*shardView).update assert [C19.gossip.merge] v == c.shardView && sameSlice(updates, remote.ShardView)
+//@   modifies elems(c.shardView.shards)
